@@ -104,17 +104,26 @@ theorem rejected_never_inner (cfg : Cfg) (hL : 1 ≤ cfg.limit) (hP : 1 ≤ cfg.
   have hi := inv_reachable cfg hL hP ops
   rw [callsOf_eq cfg _ hi, hi.rl c h]; rfl
 
+/-- A caller turned away because the wrapped service was not ready (`poll_ready` pending at its
+arrival: no call future was made) never reaches the wrapped service. -/
+theorem not_ready_never_inner (cfg : Cfg) (hL : 1 ≤ cfg.limit) (hP : 1 ≤ cfg.period) (ops : List Op)
+    (c : Nat) (h : Ev.result c .notReady ∈ (run cfg ops).log) :
+    callsOf c (run cfg ops).log = 0 := by
+  have hi := inv_reachable cfg hL hP ops
+  rw [callsOf_eq cfg _ hi, hi.nr c h]; rfl
+
 /-- An admitted call reaches the wrapped service exactly once: any other result delivered to `c`
 (success, inner error, panic) comes with exactly one `inner_call` for `c`; and no caller ever has
 more than one. -/
 theorem admitted_exactly_once (cfg : Cfg) (hL : 1 ≤ cfg.limit) (hP : 1 ≤ cfg.period) (ops : List Op)
     (c : Nat) :
-    (∀ r, r ≠ Res.rateLimited → Ev.result c r ∈ (run cfg ops).log → callsOf c (run cfg ops).log = 1) ∧
+    (∀ r, r ≠ Res.rateLimited → r ≠ Res.notReady → Ev.result c r ∈ (run cfg ops).log →
+        callsOf c (run cfg ops).log = 1) ∧
     callsOf c (run cfg ops).log ≤ 1 := by
   have hi := inv_reachable cfg hL hP ops
   constructor
-  · intro r hr hm
-    rw [callsOf_eq cfg _ hi, hi.res c r hr hm]; rfl
+  · intro r hr hr2 hm
+    rw [callsOf_eq cfg _ hi, hi.res c r hr hr2 hm]; rfl
   · rw [callsOf_eq cfg _ hi]
     unfold admittedPh
     split <;> omega
